@@ -7,6 +7,7 @@ import (
 	"strconv"
 	"syscall"
 
+	lz4 "github.com/pierrec/lz4/v4"
 	"github.com/pierrec/lz4/v4/internal/lz4block"
 )
 
@@ -93,6 +94,31 @@ func runDec(c *decCase) (obs string) {
 		}
 	}()
 	n := lz4block.VerifDecodeBlock(dst, src, dict)
+	// the public entry points (UncompressBlock / UncompressBlockWithDict) around the same decoder:
+	// an error exactly when the decoder reports one, else the same count and bytes; never a count
+	// outside 0..len(dst) without an error (an empty source is their documented (0, nil))
+	pub := "ok"
+	if len(c.src) > 0 {
+		d2 := make([]byte, c.dstlen)
+		for i := range d2 {
+			d2[i] = byte(i*c.fa + c.fb)
+		}
+		var n2 int
+		var e2 error
+		if len(c.dict) == 0 {
+			n2, e2 = lz4.UncompressBlock(c.src, d2)
+		} else {
+			n2, e2 = lz4.UncompressBlockWithDict(c.src, d2, c.dict)
+		}
+		switch {
+		case e2 == nil && (n2 < 0 || n2 > len(d2)):
+			pub = fmt.Sprintf("fail:public-API-returns-n=%d-without-error-for-len(dst)=%d", n2, len(d2))
+		case n < 0 && e2 == nil:
+			pub = fmt.Sprintf("fail:public-API-returns-(%d,nil)-where-the-decoder-reports-%d", n2, n)
+		case n >= 0 && n <= len(dst) && (e2 != nil || n2 != n || !bytes.Equal(d2[:n2], dst[:n])):
+			pub = fmt.Sprintf("fail:public-API-returns-(%d,err=%v)-where-the-decoder-returns-%d", n2, e2 != nil, n)
+		}
+	}
 	mem := "ok"
 	if arena != nil {
 		for i := 0; i < pad; i++ {
@@ -106,12 +132,12 @@ func runDec(c *decCase) (obs string) {
 		mem = "fail:src-or-dict-modified"
 	}
 	if n < 0 {
-		return fmt.Sprintf("res=err x_code=%d oracle_mem=%s", n, mem)
+		return fmt.Sprintf("res=err x_code=%d oracle_mem=%s oracle_pub=%s", n, mem, pub)
 	}
 	if n > len(dst) {
 		return fmt.Sprintf("res=ok n=%d oracle_mem=%s oracle_n=fail:n=%d>len(dst)=%d", n, mem, n, len(dst))
 	}
-	return fmt.Sprintf("res=ok n=%d out=%s dst=%s oracle_mem=%s oracle_n=ok", n, hx(dst[:n]), hx(dst), mem)
+	return fmt.Sprintf("res=ok n=%d out=%s dst=%s oracle_mem=%s oracle_n=ok oracle_pub=%s", n, hx(dst[:n]), hx(dst), mem, pub)
 }
 
 func sanitizeMsg(s string) string {
@@ -400,6 +426,32 @@ func compDec(o *out, seed uint64, tier string) {
 		src := encodeSeqs(seqs, last, final)
 		c := &decCase{src: src, dict: dict, dstlen: dl, fa: 1 + 2*r.intn(100), fb: r.intn(256), mode: r.intn(2)}
 		emit(c, class, true)
+	}
+	// a block whose FIRST sequence has no literals and a small offset: the match starts in the last
+	// bytes of the dictionary and runs over into the (still empty) output
+	for i := 0; i < n/10; i++ {
+		dictLen := []int{1, 2, 3, 4, 7, 16, 300, 65535, 70000}[r.intn(9)]
+		dict := r.bytes(dictLen)
+		off := 1 + r.intn(3)
+		if off > dictLen {
+			off = dictLen
+		}
+		ml := 4 + r.intn(40)
+		seqs := []gseq{{nil, off, ml}}
+		if r.intn(2) == 0 {
+			seqs = append(seqs, gseq{r.bytes(r.intn(5)), 1 + r.intn(ml), 4 + r.intn(20)})
+		}
+		last := r.bytes(5 + r.intn(5))
+		total := len(last)
+		for _, q := range seqs {
+			total += len(q.lits) + q.mlen
+		}
+		src := encodeSeqs(seqs, last, true)
+		dl := total
+		if r.intn(4) == 0 {
+			dl = total + r.intn(40)
+		}
+		emit(&decCase{src: src, dict: dict, dstlen: dl, fa: 1 + 2*r.intn(100), fb: r.intn(256), mode: r.intn(2)}, "dict-first-seq-no-literals", true)
 	}
 	// nil / empty destinations with sources of every small length (F2)
 	for l := 1; l <= 40; l++ {
